@@ -118,11 +118,19 @@ def run_frame(it, st, T, op):
     name = f'C14:frame:{op}'
     if T is None:
         x, sx = mk_untyped(it, st, 'ux'); vals = []; st.inputs['x'] = ['', sx]
+        st.excl[sx.atoms[0].name] |= set('? ')       # strings with a query part are C04's domain (structured queries)
         # an untyped Sid's string is arbitrary; operations that re-parse it are covered by C01 -- here: frame only
     else:
         x, vals = C.mk_typed(it, st, T, tag='x'); st.inputs['x'] = [T, [v for _, v in vals]]
         from .c04 import restrict_reserved
         restrict_reserved(st, vals)
+        for _, v in vals:
+            for a in st.norm(v).atoms:
+                if isinstance(a, Var) and ' ' not in st.excl.get(a.name, ()): st.excl[a.name].add(' ')     # as_query's encoder strips blanks: covered by C02's domain
+    if op == 'path' and T is not None:
+        from .c05 import assume_concrete
+        assume_concrete(it, st, vals)          # C05's domain (concrete Sid, A-path-norm); search Sids have no single path
+        if not st.feasible(): return 'ok'
     before = (x.attrs['_type'], x.attrs['_string'], x.attrs['_fields'], [(k, v) for k, v in x.attrs['_fields'].items])
     keys = [k for k, _ in vals]
     it.urlsafe_vars = {a.name for _, v in vals for a in st.norm(v).atoms if isinstance(a, Var)}
